@@ -1,5 +1,6 @@
 import Comdex.Props.C01
 import Comdex.Lemmas.VaultAcct
+import Comdex.Lemmas.VaultSupply
 /-!
 # C02 — No unbacked stablecoin: minted supply is covered by recorded vault principal
 
@@ -9,13 +10,28 @@ configuration — zero and non-zero draw-down, stability and closing fees — an
 * "circulating supply … never exceeds the principal recorded on open vaults, stable-mint vaults, vaults awaiting
    auction …, and in histories without liquidations it is exactly equal"                → `C02.supply_le_principal`
    (inequality for EVERY history incl. seizures and auction settlements) and `C02.supply_eq_principal` (equality for
-   histories without auction settlement). Emergency redemption (x/esm) is outside this model — partial.
+   histories without second-generation auction settlement). Emergency redemption (x/esm): `esmVault_registers_principal`,
+   `esmBurn_burns_registered`.
 * "every successful mint delivers to the user exactly the recorded new principal less the configured draw-down fee
    (which goes to the fee collector)"                                                   → `C02.mint_delivers_create`,
                                                               `C02.mint_delivers_draw`, `C02.mint_delivers_stable`
 * "every repayment or close burns exactly the principal it retires, and interest and closing fees are paid out of
    existing supply, never minted"                                                       → `C02.supply_moves_with_principal`
 * cross-decimal conversion of the stable-mint path is total and non-negative            → `Vault.otherToken_nonneg`
+
+Per message (every one of the 22 modelled step kinds; `supplyDelta` is read off the message and the pre-state):
+* exact supply effect of every accepted step                                            → `C02.supply_moves_exactly`
+* "every successful mint delivers exactly the new principal less the draw-down fee" for EVERY minting message
+      → `mint_delivers_create`, `mint_delivers_draw`, `mint_delivers_depositAndDraw`, `mint_delivers_stable` (create),
+        `mint_delivers_stableDeposit`
+* "every repayment or close burns exactly the principal it retires"
+      → `C02.burn_exact_repay`, `C02.burn_exact_close`, `C02.burn_exact_stableWithdraw`
+* "interest and closing fees are paid out of existing supply, never minted"
+      → `C02.interest_not_minted` (deposit, withdraw, interest booking, donation, seizure, redemption of a vault: Δsupply = 0),
+        `C02.burn_exact_repay` (interest-only repayment: Δsupply = 0), `C02.burn_exact_close` (interest + closing fee move, only the
+        principal is burnt)
+* no mint on the liquidation / auction / emergency paths of either generation           → `C02.liquidation_paths_never_mint`
+* the supply clauses with the product configuration changing between messages           → `C02.supply_le_principal_reconfig`
 -/
 namespace Comdex.C02
 open Comdex Comdex.Vault Comdex.C01
@@ -195,5 +211,296 @@ theorem esmBurn_burns_registered (s s' : State) (from_ app d : Nat) (x : Int) (h
   simp only [not_or, Int.not_le, Int.not_lt] at hg
   cases h
   refine ⟨hg.1, by omega, by simp [upd1], by simp [upd2], by simp [upd2], rfl, rfl, rfl⟩
+
+
+/-! ### every message's exact effect on the supply
+
+`supply_moves_exactly` gives, for EVERY modelled step (the eleven vault messages incl. `MsgDepositAndDraw` and the stable-mint
+deposit, seizures by either liquidation generation, both generations' auction closes, every emergency-shutdown step), the
+exact change of the supply of every denom as a quantity read off the message and the pre-state (`supplyDelta`). The clauses
+of the property are its instances: -/
+
+/-- **Exact supply effect of every accepted step.** -/
+theorem supply_moves_exactly (cfg : Nat → Option Product) (hc : CfgOk cfg) (s s' : State) (e : Env) (m : Msg)
+    (hwf : Wf cfg s) (h : step cfg s e m = some s') (d : Nat) :
+    s'.supply d = s.supply d + supplyDelta cfg s e m d :=
+  supply_delta_exact cfg hc s s' e m (fun w hw => (hwf.2.1 w hw).2.2.2.1) h d
+
+/-- the steps that involve no principal at all: collateral deposits and withdrawals, interest booking, unsolicited sends,
+seizure hand-overs, emergency redemption of (stable-mint) vaults -/
+def _root_.Comdex.Vault.Msg.neutral : Msg → Bool
+  | .deposit .. | .withdraw .. | .interestCalc .. | .donate .. | .seize .. | .esmVault .. | .esmStable .. => true
+  | _ => false
+
+/-- **Interest and fees are never minted (1)**: a step that retires or creates no principal leaves every supply unchanged —
+whatever interest it books on the vault (`iota`), whatever it moves. -/
+theorem interest_not_minted (cfg : Nat → Option Product) (hc : CfgOk cfg) (s s' : State) (e : Env) (m : Msg)
+    (hwf : Wf cfg s) (hn : m.neutral = true) (h : step cfg s e m = some s') : s'.supply = s.supply := by
+  funext d
+  rw [supply_moves_exactly cfg hc s s' e m hwf h d]
+  have z : supplyDelta cfg s e m d = 0 := by
+    cases m with
+    | deposit f a pr v x => simp only [supplyDelta, supplyDeltaP]; (repeat' split) <;> rfl
+    | withdraw f a pr v x => simp only [supplyDelta, supplyDeltaP]; (repeat' split) <;> rfl
+    | interestCalc a v => simp only [supplyDelta, supplyDeltaP]; (repeat' split) <;> rfl
+    | donate f d0 x => rfl
+    | seize v => simp only [supplyDelta, supplyDeltaP]; (repeat' split) <;> rfl
+    | esmVault v => simp only [supplyDelta, supplyDeltaP]; (repeat' split) <;> rfl
+    | esmStable v => simp only [supplyDelta, supplyDeltaP]; (repeat' split) <;> rfl
+    | _ => simp [Msg.neutral] at hn
+  omega
+
+/-- **Interest and fees are never minted (2)**: a repayment that does not exceed the interest owed (the interest accrued
+inside the message included) is forwarded to the collector in full and burns nothing; a larger one burns exactly the part
+beyond the interest — the principal it retires. -/
+theorem burn_exact_repay (s s' : State) (p : Product) (e : Env) (from_ app prod vaultId : Nat) (amt : Int)
+    (h : repay s p e from_ app prod vaultId amt = some s') :
+    ∃ v ∈ s.vaults, ∃ i, v.id = vaultId ∧ e.iota = some i ∧
+      s'.supply p.denomOut = s.supply p.denomOut - (if amt ≤ v.interest + i then 0 else amt - (v.interest + i)) ∧
+      (∀ d, d ≠ p.denomOut → s'.supply d = s.supply d) := by
+  have hs := repay_supply s s' p e from_ app prod vaultId amt h
+  unfold repay at h
+  split at h; · cases h
+  split at h; · cases h
+  next w hov =>
+  obtain ⟨v0, i, hf, hi, rfl⟩ := ownedVault_find s p e from_ app prod vaultId w hov
+  obtain ⟨hm, hid⟩ := find_some_mem s vaultId v0 hf
+  refine ⟨v0, hm, i, hid, hi, ?_, fun d hd => by rw [hs d]; simp [hd]⟩
+  rw [hs p.denomOut]
+  simp only [supplyDeltaP, hf, hi, if_true]
+  split <;> omega
+
+/-- **Close burns exactly the principal**: interest and closing fee travel user → custody → collector, the recorded principal
+is burnt, nothing else. -/
+theorem burn_exact_close (s s' : State) (p : Product) (e : Env) (from_ app prod vaultId : Nat)
+    (hwf : ∀ w ∈ s.vaults, 0 ≤ w.amountOut) (h : close s p e from_ app prod vaultId = some s') :
+    ∃ v ∈ s.vaults, v.id = vaultId ∧ s'.supply p.denomOut = s.supply p.denomOut - v.amountOut ∧
+      (∀ d, d ≠ p.denomOut → s'.supply d = s.supply d) ∧ (∀ w ∈ s'.vaults, w.id ≠ vaultId) := by
+  have hs := close_supply s s' p e from_ app prod vaultId hwf h
+  unfold close at h
+  split at h; · cases h
+  split at h; · cases h
+  next w hov =>
+  obtain ⟨v0, i, hf, hi, rfl⟩ := ownedVault_find s p e from_ app prod vaultId w hov
+  obtain ⟨hm, hid⟩ := find_some_mem s vaultId v0 hf
+  refine ⟨v0, hm, hid, ?_, fun d hd => by rw [hs d]; simp [hd], ?_⟩
+  · rw [hs p.denomOut]; simp only [supplyDeltaP, hf, if_true]; omega
+  · simp only [Option.map_eq_some_iff] at h
+    obtain ⟨s1, hb, rfl⟩ := h
+    intro w hw
+    simp only [(runBank_effect _ s s1 hb).same.vaults, delVault, delBy, List.mem_filter, decide_eq_true_eq] at hw
+    rw [← hid]; exact hw.2
+
+/-- **Stable-mint withdrawal burns exactly what it takes off the record**: the draw-down fee share goes to the collector
+out of the coins handed in, the rest is burnt, and the recorded principal falls by exactly that rest. -/
+theorem burn_exact_stableWithdraw (s s' : State) (p : Product) (e : Env) (from_ app prod stableId : Nat) (amt : Int)
+    (hp : ProductOk p) (h : stableWithdraw s p e from_ app prod stableId amt = some s') :
+    s'.supply p.denomOut = s.supply p.denomOut - (stableWithdrawAmounts p amt).1 ∧
+    s'.minted prod = s.minted prod - (stableWithdrawAmounts p amt).1 ∧
+    0 < (stableWithdrawAmounts p amt).1 ∧ (stableWithdrawAmounts p amt).1 = amt - (if p.drawDownFee = 0 then 0 else feeOf amt p.drawDownFee) := by
+  have hs := stableWithdraw_supply s s' p e from_ app prod stableId amt hp h p.denomOut
+  unfold stableWithdraw at h
+  split at h; · cases h
+  next g1 =>
+  simp only [not_or, Int.not_le] at g1
+  split at h; · cases h
+  split at h; · cases h
+  split at h; · cases h
+  split at h; · cases h
+  simp only [Option.map_eq_some_iff] at h
+  obtain ⟨s1, hb, rfl⟩ := h
+  have hx : 0 < amt := g1.2.2.2.2.2
+  have hlt := feeOf_lt amt p.drawDownFee hx hp.1 hp.2.1
+  refine ⟨by rw [hs]; simp only [if_true]; omega, by simp [upd1, (runBank_effect _ s s1 hb).same.minted], ?_, ?_⟩
+  · unfold stableWithdrawAmounts
+    by_cases hz : p.drawDownFee = 0
+    · simp only [hz, if_true]; exact hx
+    · simp only [hz, if_false]; split <;> (simp only; omega)
+  · unfold stableWithdrawAmounts
+    by_cases hz : p.drawDownFee = 0
+    · simp only [hz, if_true]; omega
+    · simp only [hz, if_false]; split <;> rfl
+
+/-- the steps of the liquidation / auction / emergency paths of both generations -/
+def _root_.Comdex.Vault.Msg.liquidationPath : Msg → Bool
+  | .seize .. | .settle .. | .settle1 .. | .esmVault .. | .esmStable .. | .esmReturn1 .. | .esmReturn2 .. | .esmCollector .. | .esmBurn .. => true
+  | _ => false
+
+/-- **No mint on the liquidation, auction and emergency paths** of either generation: every such step leaves each supply
+where it was or burns. -/
+theorem liquidation_paths_never_mint (cfg : Nat → Option Product) (hc : CfgOk cfg) (s s' : State) (e : Env) (m : Msg)
+    (hwf : Wf cfg s) (hl : m.liquidationPath = true) (h : step cfg s e m = some s') (d : Nat) : s'.supply d ≤ s.supply d := by
+  rw [supply_moves_exactly cfg hc s s' e m hwf h d]
+  have hlk : ∀ l ∈ s.locked, 0 ≤ l.amountOut ∧ l.amountOut ≤ l.debt := fun l hl => (hwf.2.2.2.2 l hl).2
+  have hfind : ∀ v l, s.locked.find? (fun x => decide (x.vaultId = v)) = some l → 0 ≤ l.amountOut ∧ l.amountOut ≤ l.debt :=
+    fun v l hf => hlk l (find_mem (·.vaultId) s.locked v l hf).1
+  cases m with
+  | seize v => simp only [supplyDelta, supplyDeltaP]; (repeat' split) <;> simp
+  | esmVault v => simp only [supplyDelta, supplyDeltaP]; (repeat' split) <;> simp
+  | esmStable v => simp only [supplyDelta, supplyDeltaP]; (repeat' split) <;> simp
+  | settle v =>
+    simp only [supplyDelta, supplyDeltaP, Msg.product]
+    cases hf : s.locked.find? (fun x => decide (x.vaultId = v)) with
+    | none => simp
+    | some l => have := hfind v l hf; simp only [Option.map_some]; (repeat' split) <;> omega
+  | settle1 v =>
+    simp only [supplyDelta, supplyDeltaP, Msg.product]
+    cases hf : s.locked.find? (fun x => decide (x.vaultId = v)) with
+    | none => simp
+    | some l => have := hfind v l hf; simp only [Option.map_some]; (repeat' split) <;> omega
+  | esmReturn2 v o c dd f =>
+    simp only [supplyDelta, supplyDeltaP, Msg.product]
+    cases hf : s.locked.find? (fun x => decide (x.vaultId = v)) with
+    | none => simp
+    | some l =>
+      simp only [Option.map_some]
+      have : 0 ≤ trigger2Burn l dd f := by unfold trigger2Burn; split <;> omega
+      (repeat' split) <;> omega
+  | esmReturn1 v o c i =>
+    -- accepted ⇒ the collected amount `i` is non-negative (guard of the step)
+    have hi : 0 ≤ i := by
+      simp only [step, Msg.product] at h
+      cases hf : s.locked.find? (fun x => decide (x.vaultId = v)) with
+      | none => simp [hf] at h
+      | some l =>
+        simp only [hf, Option.map_some] at h
+        cases hp : cfg l.product with
+        | none => simp [hp] at h
+        | some p =>
+          simp only [hp] at h
+          split at h; · cases h
+          simp only [stepP, esmReturn1, hf] at h
+          split at h; · cases h
+          next hg => simp only [not_or, Int.not_lt] at hg; exact hg.2.2.2.2.1
+    simp only [supplyDelta, supplyDeltaP]
+    (repeat' split) <;> omega
+  | esmCollector a d0 x =>
+    simp only [step, esmCollector] at h
+    split at h; · cases h
+    next hg => simp only [not_or, Int.not_le] at hg; simp only [supplyDelta]; split <;> omega
+  | esmBurn f a d0 x =>
+    simp only [step, esmBurn] at h
+    split at h; · cases h
+    next hg => simp only [not_or, Int.not_le] at hg; simp only [supplyDelta]; split <;> omega
+  | _ => simp [Msg.liquidationPath] at hl
+
+theorem deposit_acct (s s1 : State) (p : Product) (e : Env) (from_ app prod vaultId : Nat) (amt : Int)
+    (h : deposit s p e from_ app prod vaultId amt = some s1) (a d : Nat) :
+    0 < amt ∧ s1.bal a d = s.bal a d + netAcct a [BankOp.sendPos from_ vm p.denomIn amt] d := by
+  unfold deposit at h
+  split at h; · cases h
+  next hg =>
+  simp only [not_or, Int.not_le] at hg
+  split at h; · cases h
+  split at h; · cases h
+  simp only [Option.map_eq_some_iff] at h
+  obtain ⟨s0, hb, rfl⟩ := h
+  exact ⟨hg.2.2.2, runBank_acct _ s s0 hb a d⟩
+
+/-- **Mint delivers (deposit-and-draw)**: the message mints `AmountOut·amt / AmountIn` (the stored vault's ratio, truncated);
+the user receives that less the draw-down fee (less the collateral handed in, when collateral and debt are one denom), the
+collector the fee. -/
+theorem mint_delivers_depositAndDraw (s s' : State) (p : Product) (e : Env) (from_ app prod vaultId : Nat) (amt : Int)
+    (hpo : ProductOk p) (hu : from_ ≠ vm) (huc : from_ ≠ cm)
+    (h : depositAndDraw s p e from_ app prod vaultId amt = some s') :
+    ∃ v ∈ s.vaults, v.id = vaultId ∧ ∃ out, userToken v amt = some out ∧
+      s'.supply p.denomOut = s.supply p.denomOut + out ∧
+      s'.bal from_ p.denomOut = s.bal from_ p.denomOut + (out - feeOf out p.drawDownFee)
+        - (if p.denomOut = p.denomIn then amt else 0) ∧
+      s'.bal cm p.denomOut = s.bal cm p.denomOut + feeOf out p.drawDownFee := by
+  have hs := depositAndDraw_supply s s' p e from_ app prod vaultId amt h p.denomOut
+  unfold depositAndDraw at h
+  cases hf : findVault s vaultId with
+  | none => simp [hf] at h
+  | some v0 =>
+    simp only [hf] at h
+    cases hut : userToken v0 amt with
+    | none => simp [hut] at h
+    | some na =>
+      simp only [hut] at h
+      cases hd : deposit s p e from_ app prod vaultId amt with
+      | none => simp [hd] at h
+      | some s1 =>
+        simp only [hd] at h
+        obtain ⟨hm, hid⟩ := find_some_mem s vaultId v0 hf
+        obtain ⟨d1, d2⟩ := mint_delivers_draw s1 s' p _ from_ app prod vaultId na hpo hu huc h
+        refine ⟨v0, hm, hid, na, hut, by rw [hs]; simp [supplyDeltaP, hf, hut], ?_, ?_⟩
+        · obtain ⟨hpos, hbal⟩ := deposit_acct s s1 p e from_ app prod vaultId amt hd from_ p.denomOut
+          rw [d1, hbal]
+          have hvu : ¬ vm = from_ := fun h => hu h.symm
+          by_cases hdd : p.denomOut = p.denomIn <;> simp [netAcct, BankOp.dAcct, hpos, hdd, hvu] <;> omega
+        · obtain ⟨hpos, hbal⟩ := deposit_acct s s1 p e from_ app prod vaultId amt hd cm p.denomOut
+          rw [d2, hbal]
+          have hvc : ¬ vm = cm := by decide
+          have hcu : ¬ from_ = cm := huc
+          simp [netAcct, BankOp.dAcct, hvc, hcu]
+
+/-- **Mint delivers (stable-mint deposit)**: as for the stable-mint create — the converted amount less the fee. -/
+theorem mint_delivers_stableDeposit (s s' : State) (p : Product) (e : Env) (from_ app prod stableId : Nat) (amt : Int)
+    (hpo : ProductOk p) (hu : from_ ≠ vm) (huc : from_ ≠ cm) (hdd : p.denomOut ≠ p.denomIn)
+    (h : stableDeposit s p e from_ app prod stableId amt = some s') :
+    let out := otherToken amt p.decIn p.decOut
+    s'.supply p.denomOut = s.supply p.denomOut + out ∧
+    s'.bal from_ p.denomOut = s.bal from_ p.denomOut + (out - feeOf out p.drawDownFee) ∧
+    s'.bal cm p.denomOut = s.bal cm p.denomOut + feeOf out p.drawDownFee := by
+  have hs := stableDeposit_supply s s' p e from_ app prod stableId amt h p.denomOut
+  unfold stableDeposit at h
+  split at h; · cases h
+  split at h; · cases h
+  split at h; · cases h
+  split at h; · cases h
+  split at h; · cases h
+  split at h; · cases h
+  simp only [Option.map_eq_some_iff] at h
+  obtain ⟨s1, hb, rfl⟩ := h
+  obtain ⟨s0, _, hb2⟩ := runBank_cons _ _ _ _ hb
+  have hout := mintAndSplit_pos _ _ _ _ _ hb2
+  have hd := mintAndSplit_delivers p from_ _ hu huc hpo hout
+  have hvc : ¬ vm = cm := by decide
+  refine ⟨by rw [hs]; simp, ?_, ?_⟩
+  · show s1.bal from_ p.denomOut = _
+    rw [runBank_acct _ s s1 hb from_ p.denomOut]
+    have : netAcct from_ (BankOp.send from_ vm p.denomIn amt :: mintAndSplit p from_ (otherToken amt p.decIn p.decOut)) p.denomOut
+        = BankOp.dAcct from_ (.send from_ vm p.denomIn amt) p.denomOut +
+          netAcct from_ (mintAndSplit p from_ (otherToken amt p.decIn p.decOut)) p.denomOut := by
+      simp [netAcct]
+    rw [this, hd.1]; simp [BankOp.dAcct, hdd]
+  · show s1.bal cm p.denomOut = _
+    rw [runBank_acct _ s s1 hb cm p.denomOut]
+    have : netAcct cm (BankOp.send from_ vm p.denomIn amt :: mintAndSplit p from_ (otherToken amt p.decIn p.decOut)) p.denomOut
+        = BankOp.dAcct cm (.send from_ vm p.denomIn amt) p.denomOut +
+          netAcct cm (mintAndSplit p from_ (otherToken amt p.decIn p.decOut)) p.denomOut := by
+      simp [netAcct]
+    rw [this, hd.2]; simp [BankOp.dAcct, hdd]
+
+/-- **Supply under reconfiguration**: with the product parameters changing between messages, the supply of every denom never
+exceeds the recorded principal (+ outside funding), and equals it in histories without second-generation settlement. -/
+theorem supply_le_principal_reconfig (cfg0 : Nat → Option Product) (hc : CfgOk cfg0) (h : List Ev) (hok : EvOk cfg0 h) (d : Nat) :
+    let cfg := (runC (cfg0, State.init) h).1
+    let s := (runC (cfg0, State.init) h).2
+    s.supply d ≤ principalRecorded cfg s d + s.extSupply d ∧
+    (NoSettleC h → s.supply d = principalRecorded cfg s d + s.extSupply d) := by
+  obtain ⟨G', h', g, _, e⟩ := invL_always_reconfig h cfg0 hc hok Gaps.zero State.init (invL_init cfg0 hc) goodGaps_zero
+  have h1 := h'.2.2.2.2 d
+  have h2 := g.2.2.2.2 d
+  refine ⟨by simp only [SupplyAtG] at h1; omega, fun hn => ?_⟩
+  rw [e hn] at h1
+  simpa [SupplyAtG, Gaps.zero] using h1
+
+/-! non-vacuity of the per-message supply theorems on the demo history -/
+example : supplyDelta demoCfg (runAll demoCfg State.init [(demoEnv, .fund 10 1 5000000)]) demoEnv (.create 10 1 1 3000000 2000000) 3 = 2000000 := by decide
+example : let s := runAll demoCfg State.init (demoHistory.take 3)
+    (step demoCfg s { demoEnv with iota := some 5 } (.deposit 10 1 1 1 1000)).isSome ∧
+    supplyDelta demoCfg s { demoEnv with iota := some 5 } (.deposit 10 1 1 1 1000) 3 = 0 ∧
+    (step demoCfg s { demoEnv with iota := some 700 } (.repay 10 1 1 1 600)).isSome ∧
+    supplyDelta demoCfg s { demoEnv with iota := some 700 } (.repay 10 1 1 1 600) 3 = 0 ∧
+    (step demoCfg s { demoEnv with iota := some 700 } (.repay 10 1 1 1 1700)).isSome ∧
+    supplyDelta demoCfg s { demoEnv with iota := some 700 } (.repay 10 1 1 1 1700) 3 = -1000 := by decide
+example : let s := runAll demoCfg State.init demoHistory
+    (step demoCfg s demoEnv (.settle 1)).isSome ∧ supplyDelta demoCfg s demoEnv (.settle 1) 3 = -2000005 ∧
+    supplyDelta demoCfg s demoEnv (.settle1 1) 3 = -2000000 := by decide
+example : let s := runAll demoCfg State.init (demoHistory.take 3)
+    (step demoCfg s demoEnv (.depositAndDraw 10 1 1 1 300000)).isSome ∧
+    supplyDelta demoCfg s demoEnv (.depositAndDraw 10 1 1 1 300000) 3 = 200000 := by decide
 
 end Comdex.C02
